@@ -63,8 +63,59 @@ def same_terms(a, b, exact, tol):
     return all(abs(a[k] - b[k]) <= tol * max(1.0, abs(b[k])) for k in a)
 
 
+def product_case(ctx, rng):
+    """a weighted objective written as a product: S = lam * F, F * lam or F *= lam for a numeric model F of any labelled
+    type; S.subs(lam -> c) must be the model c * F (and leave S alone)"""
+    import sympy
+    tn = rng.choice(["PCBO", "PCSO", "PUBO", "PUSO", "QUBO", "QUSO"])
+    T = getattr(L, tn)
+    labs = [x for x in gen.labels(rng, rng.randint(2, 5)) if x is not None] or ["a", "b"]
+    terms = gen.rand_terms(rng, labs, 2, lo=1, hi=5)
+    F_ = gen.model_of(T, terms)
+    lam = sympy.Symbol("lam")
+    c = rng.choice([0.5, 2, 3, 0.25])
+    how = rng.choice(["rmul", "mul", "imul", "imul-then-add-number"])
+    w = {"class": tn, "terms": terms, "how": how, "value": c}
+    try:
+        if how == "rmul":
+            S = lam * F_
+        elif how == "mul":
+            S = F_ * lam
+        else:
+            S = F_.copy()
+            S *= lam
+            if how == "imul-then-add-number":
+                S += 1
+    except Exception as e:   # noqa
+        ctx.violation("product:raises-%s" % type(e).__name__, "%s raised %r" % (how, e), w)
+        return
+    ctx.cat("product-with-symbol:" + how)
+    snap = dict(S)
+    ok, N = ctx.call("subs", S.subs, {lam: c}, _w=w)
+    if not ok:
+        return
+    if dict(S) != snap:
+        ctx.violation("subs:original-mutated", "the symbolic product changed under subs", w)
+        return
+    want = {k: v * c for k, v in dict(F_).items()}
+    if how == "imul-then-add-number":
+        want[()] = want.get((), 0) + 1
+    a = numeric_terms(N, 1e-9)
+    if a is None:
+        ctx.violation("subs:symbols-left", "coefficients still symbolic after subs on a product with a symbol: %r" % (dict(N),), w)
+        return
+    if type(N) is not type(S) or not same_terms(a, {k: float(v) for k, v in want.items() if v}, True, 1e-9):
+        ctx.violation("subs:coefficients-differ", "subs of %s gives %r (%s), expected %r" % (how, dict(N), type(N).__name__, want), w)
+        return
+    if len(terms) >= 2:
+        ctx.nontrivial(("product", tn, sorted(terms.items(), key=repr), how, c))
+
+
 def case(ctx, rng, idx):
-    if rng.random() < 0.25:
+    r_ = rng.random()
+    if r_ < 0.1:
+        return product_case(ctx, rng)
+    if r_ < 0.33:
         return reduction_case(ctx, rng)
     import sympy
     kind = rng.choice(["bool", "spin"])
@@ -95,7 +146,7 @@ def case(ctx, rng, idx):
             ty_ = rng.choice([np.int64, np.float64, lambda v: Fraction(v).limit_denominator(64), np.int32])
             o = {k: ty_(v) if float(v).is_integer() or ty_ not in (np.int64, np.int32) else ty_(2 * v) for k, v in o.items()}
             ctx.cat("typed-number-coefficients")
-        steps.append(("objective", o, so))
+        steps.append(("objective", o, so, rng.choice(["itemwise", "itemwise", "imul-by-scalar", "rmul-by-scalar"])))
     for _ in range(rng.randint(1, 3)):
         if kind == "bool" and rng.random() < 0.35:
             g = rng.choice(GATES)
@@ -163,6 +214,15 @@ def case(ctx, rng, idx):
                 continue
             if st[0] == "objective":
                 coef = (st[2] if symbolic else syms[st[2]]) if st[2] is not None else 1
+                if st[3] != "itemwise" and st[2] is not None:
+                    # the weighted objective is written as a product of the weight and a numeric model: lam * F, F *= lam
+                    for k, v in st[1].items():
+                        H[k] += v
+                    if st[3] == "imul-by-scalar":
+                        H *= coef
+                    else:
+                        H = coef * H
+                    continue
                 for k, v in st[1].items():
                     H[k] += v * coef
             elif st[0] == "gate":
@@ -286,6 +346,55 @@ def case(ctx, rng, idx):
     if Hn.num_ancillas != Hc.num_ancillas:
         ctx.violation("subs:num_ancillas-differs", "num_ancillas %r vs %r" % (Hn.num_ancillas, Hc.num_ancillas), w)
         return
+    if len(labs) >= 2 and rng.random() < 0.45:
+        # ---- the history goes on: on the symbolic original (whose first subs is behind it) or on the substituted result, another
+        # model with a recorded constraint is merged in with update(), or another constraint with a NEW symbolic weight is added;
+        # then subs again.  The numeric build gets the same step with the number.
+        target = rng.choice(["original", "result"])
+        stepk = rng.choice(["update-with-constrained-model", "add-constraint"])
+        s2 = sympy.Symbol("mu")
+        v2 = rng.choice([0.5, 2, 3])
+        l0_, l1_ = labs[0], labs[1]
+        P2 = {(l0_,): 1, (l1_,): 1, (): -1} if kind == "bool" else {(l0_,): 1, (l1_,): 1}
+        R2 = rng.choice(["le", "eq"])
+        A_, B_ = (Hs if target == "original" else Hn), Hc
+        w3 = dict(w, then=[target, stepk, R2])
+        try:
+            with warnings.catch_warnings():
+                warnings.simplefilter("ignore")
+                for M_, lam_ in ((A_, s2), (B_, v2)):
+                    if stepk == "add-constraint":
+                        getattr(M_, "add_constraint_%s_zero" % R2)(dict(P2), lam=lam_)
+                    else:
+                        K_ = T()
+                        getattr(K_, "add_constraint_%s_zero" % R2)(dict(P2), lam=lam_)
+                        M_.update(K_)
+        except Exception as e:   # noqa
+            ctx.violation("second-round:step-raises-%s" % type(e).__name__, "%s on the %s raised %r" % (stepk, target, e), w3)
+            return
+        allmap = dict(syms)
+        allmap[s2] = v2
+        ok, H2 = ctx.call("subs", A_.subs, allmap, _w=w3)
+        if not ok:
+            return
+        ctx.cat("second-round:%s:%s" % (target, stepk))
+        a2, b2 = numeric_terms(H2, tol), numeric_terms(B_, tol)
+        if a2 is None:
+            ctx.violation("second-round:symbols-left", "after %s on the %s and a second subs, coefficients are still symbolic: %r" % (
+                stepk, target, {k: v for k, v in H2.items() if hasattr(v, "free_symbols") and v.free_symbols}), w3)
+            return
+        if not same_terms(a2, b2, exact, tol):
+            diff = {k: (a2.get(k), b2.get(k)) for k in set(a2) | set(b2) if a2.get(k) != b2.get(k)}
+            ctx.violation("second-round:coefficients-differ", "after %s on the %s: %r" % (stepk, target, dict(list(diff.items())[:4])), w3)
+            return
+        c2, d2_ = H2.constraints, B_.constraints
+        if set(c2) != set(d2_) or any(len(c2[k]) != len(d2_[k]) for k in c2) or any(
+                not same_terms(numeric_terms(pa, tol), numeric_terms(pb, tol), exact, tol) for k in c2 for pa, pb in zip(c2[k], d2_[k])):
+            ctx.violation("second-round:constraints-differ", "after %s on the %s and a second subs the recorded constraints are %r, the numeric build has %r" % (stepk, target, c2, d2_), w3)
+            return
+        if H2.num_ancillas != B_.num_ancillas:
+            ctx.violation("second-round:num_ancillas-differs", "num_ancillas %r vs %r" % (H2.num_ancillas, B_.num_ancillas), w3)
+            return
     if nsym >= 2:
         ctx.nontrivial((T.__name__, desc, sorted(w["values"].items())))
     ctx.sample({"class": T.__name__, "steps": desc, "values": w["values"], "symbolic_coefficients": nsym}, limit=3)
